@@ -84,6 +84,10 @@ def integrate_instances(tier, prop):
                 else:
                     out.append(dict(id="e2e-euler-a%g-d%d-%s" % (al, direction, "dense" if dense else "nodense"), kind="e2e", family="euler", alpha=al,
                                     dense=dense, direction=direction, budget=b))
+    if prop == "C07":
+        for dense in (True, False):
+            out.append(dict(id="integrate-euler-n-%s-N2-two-calls" % ("dense" if dense else "nodense"), kind="integrate", family="euler", events=["n"], dense=dense,
+                            N=2, max_reports=3, two_calls=True, budget=b))
     if prop == "C08":
         # three steps with dense_output=False: from the third step on the interpolants of old steps have been pruned
         out.append(dict(id="integrate-euler-n-nodense-N3", kind="integrate", family="euler", events=["n"], dense=False, N=3, max_reports=2, budget=b))
